@@ -234,7 +234,9 @@ def path_status(W, body, T):
     in an error return (or re-run the call).  Independent of how the test is spelled.  None when the outcome is never
     tested here (the term-based classification then decides: returned as is / passed on / dropped)."""
     g = W.gea(body)
-    atoms = [a for a in g.atoms if a[0] == "VARIANT" and adapter_root(a[1]) == T]
+    # (for `x.ok_or(e)` / `x.ok_or_else(..)` the test of the Result is the test of x: Err <=> x is None)
+    base = P.strip_ok_preserving(T)
+    atoms = [a for a in g.atoms if a[0] == "VARIANT" and (adapter_root(a[1]) == T or (base != T and a[1] == base))]
     if not atoms:
         return None
     pv = W.prov(body)
